@@ -1,5 +1,4 @@
 import Infretis.Lemmas.RepexC05Init
-import Infretis.Lemmas.RepexC03RRestore
 import Mathlib.Data.List.Nodup
 /-!
 # C05 — `load_paths`: a fresh start from family paths gives `Init5`; the restart image of a state
